@@ -1121,6 +1121,10 @@ class RTCSctpTransport(AsyncIOEventEmitter):
         """
         Handle a DATA chunk.
         """
+        if self._last_received_tsn is None:
+            # the peer's initial TSN is not known yet, there is no association
+            return
+
         self._sack_needed = True
 
         # mark as received
@@ -1141,6 +1145,10 @@ class RTCSctpTransport(AsyncIOEventEmitter):
         """
         Handle a FORWARD TSN chunk.
         """
+        if self._last_received_tsn is None:
+            # the peer's initial TSN is not known yet, there is no association
+            return
+
         self._sack_needed = True
 
         # it's a duplicate
